@@ -6,6 +6,9 @@ Decided structural clauses:
     flows through self._update_internal before it is handed out
  D3 wherever samples and labels are rebuilt / permuted together, the same selector is applied to both
  D4 remove_samples rejects bad indices before it modifies the data
+ D5 scaling bookkeeping: an overriding / first scaling records the original extrema BEFORE the samples are transformed; a
+    non-overriding scaling leaves them untouched and composes the factor; revert_scaling undoes factor then shift and resets
+    every scaling attribute
 Not decided: min/max land on the range ends, revert restores the samples (numerical), multiset preservation as a value property."""
 import ast
 
@@ -258,6 +261,9 @@ def run(prog, ctx):
               "move_boundaries_to_front does not swap samples and labels with the same index pair")
     ctx.floor("C18.D3", n3, 9, "parallel-array instances")
 
+    # ------------------------------------------------------------------ D5
+    check_bookkeeping(prog, ctx, ds)
+
     # ------------------------------------------------------------------ D4
     cr = cfg_of(rs)
     stores = [R.cfg_node(rs, s.stmt) for s in R.self_stores(rs, "_data")]
@@ -310,6 +316,113 @@ def run(prog, ctx):
         ctx.check(acc_ok or strict, "C18.D4", R.key_of(rs, "too-large-rejected-before-store"), rs.loc(stn.ast),
                   "an index equal to the length is rejected (bounds test or element access) before the store",
                   "an index >= length reaches np.delete: neither a strict bounds test nor the per-index element access dominates the store")
+
+
+def check_bookkeeping(prog, ctx, ds):
+    sattrs = _scaling_attrs(prog, ds)
+    for mname in ("scale_factor", "shift_value", "scale_range"):
+        fi = prog.func(DS + "." + mname)
+        tm = Terms(fi.node, max_depth=0)
+        c = cfg_of(fi)
+        ov = fi.params[2] if len(fi.params) > 2 else "override_scaling"
+        first = None
+        for n in c.nodes:
+            if n.kind == "test":
+                t = tm.term(n.ast)
+                if t == ("a", ("n", "self"), "_scaled"):
+                    first = n
+        if first is None:
+            raise AnalysisError("C18.D5: %s no longer branches on self._scaled" % fi.qual)
+        # branch membership: "first/overriding" branch = reachable when (_scaled is False) edge is taken or override is True
+        def branch_of(node):
+            guards = [g for (g, gn) in R.dominating_guards(fi, node, tm) if gn.kind == "test"]
+            if ("n", ov) in guards or ("not", ("a", ("n", "self"), "_scaled")) in guards:
+                return "override"
+            if ("a", ("n", "self"), "_scaled") in guards and ("not", ("n", ov)) in guards:
+                return "compose"
+            return None
+        stores = {"override": {}, "compose": {}}
+        data_nodes = {"override": [], "compose": []}
+        for s_ in R.self_stores(fi):
+            n = c.node_of(s_.stmt)
+            b = branch_of(n)
+            if b is None:
+                # statements under `if A or B:` have two dominating edges; classify by block position: body of the first If -> override
+                par = s_.stmt
+                while par is not None and not isinstance(getattr(par, "_parent", None), (ast.FunctionDef,)):
+                    par = getattr(par, "_parent", None)
+                top = par
+                if isinstance(top, ast.If):
+                    b = "override" if any(s_.stmt is x or any(s_.stmt is y for y in ast.walk(x)) for x in top.body) else "compose"
+            if b is None:
+                continue
+            if s_.attr == "_data":
+                data_nodes[b].append(n)
+            else:
+                stores[b].setdefault(s_.attr, []).append((s_, n))
+        # override branch: records the original extrema before the data is transformed (scale_range takes them from the fitted scaler)
+        ovs = stores["override"]
+        need = {"_scaled", "_scaling_range", "_scaling_factor", "_original_min", "_original_max"}
+        ok = need <= set(ovs)
+        why = "the first / overriding scaling does not store %s" % sorted(need - set(ovs))
+        if ok:
+            for a in ("_original_min", "_original_max"):
+                for (s_, n) in ovs[a]:
+                    t = tm.term(s_.value)
+                    from_data = t[0] == "call" and t[1][0] == "a" and t[1][1] == ("n", "self") and t[1][2] in ("get_min_data", "get_max_data")
+                    from_scaler = t[0] == "a" and t[2] in ("data_min_", "data_max_")
+                    want = {"_original_min": ("get_min_data", "data_min_"), "_original_max": ("get_max_data", "data_max_")}[a]
+                    if from_data:
+                        if t[1][2] != want[0]:
+                            ok, why = False, "%s is taken from %s" % (a, t[1][2])
+                        if not all(c.dominates(n, dn) and n is not dn for dn in data_nodes["override"]):
+                            ok, why = False, "%s is read from the samples after they were already transformed" % a
+                    elif from_scaler:
+                        if t[2] != want[1]:
+                            ok, why = False, "%s is taken from scaler.%s" % (a, t[2])
+                    else:
+                        ok, why = False, "%s = %s is not the extremum of the untransformed samples" % (a, show(t))
+            sc = [tm.term(s_.value) for (s_, n) in ovs["_scaled"]]
+            if sc != [("c", "True")]:
+                ok, why = False, "_scaled is not set to True"
+        ctx.check(ok, "C18.D5", R.key_of(fi, "override-records-original"), fi.loc(),
+                  "a first / overriding scaling records the extrema of the untransformed samples and marks the set as scaled",
+                  "%s: %s" % (fi.name, why))
+        # compose branch: original extrema untouched, factor composed
+        cps = stores["compose"]
+        ok = not ({"_original_min", "_original_max", "_scaled"} & set(cps))
+        why = "a non-overriding scaling overwrites %s: revert_scaling can no longer restore the samples as they were before the first scaling" % sorted({"_original_min", "_original_max", "_scaled"} & set(cps))
+        if ok and mname in ("scale_factor", "scale_range"):
+            fs = cps.get("_scaling_factor", [])
+            ok = len(fs) == 1 and fs[0][0].kind == "aug" and isinstance(fs[0][0].stmt.op, ast.Mult)
+            why = "a non-overriding %s does not compose the scaling factor multiplicatively" % mname
+        ctx.check(ok, "C18.D5", R.key_of(fi, "compose-keeps-original"), fi.loc(),
+                  "a non-overriding scaling keeps the recorded original extrema and composes the factor", "%s: %s" % (fi.name, why))
+    # revert: factor first, then shift back to the original minimum, then reset every scaling attribute
+    rv = prog.func(DS + ".revert_scaling")
+    tmr = Terms(rv.node, max_depth=0)
+    cr = cfg_of(rv)
+    calls = [(x, cr.node_containing(x)) for x in R.calls_in(rv.node) if isinstance(x.func, ast.Attribute) and x.func.attr in ("scale_factor", "shift_value")
+             and R.attr_chain(x.func.value) == ["self"]]
+    ok = [x.func.attr for (x, n) in sorted(calls, key=lambda p: p[1].idx)] == ["scale_factor", "shift_value"]
+    why = "revert_scaling does not undo the factor and then the shift"
+    if ok:
+        f_arg = tmr.term(calls[0][0].args[0] if calls[0][0].func.attr == "scale_factor" else calls[1][0].args[0])
+        sf = [x for (x, n) in calls if x.func.attr == "scale_factor"][0]
+        sh = [x for (x, n) in calls if x.func.attr == "shift_value"][0]
+        okf = tmr.term(sf.args[0]) == ("op", "Div", (("c", "1.0"), ("a", ("n", "self"), "_scaling_factor"))) or \
+            tmr.term(sf.args[0]) == ("op", "Div", (("c", "1"), ("a", ("n", "self"), "_scaling_factor")))
+        oksh = tmr.term(sh.args[0]) == ("neg", ("op", "Sub", (("call", ("a", ("n", "self"), "get_min_data"), (), ()), ("a", ("n", "self"), "_original_min")))) or \
+            tmr.term(sh.args[0]) == ("op", "Sub", (("a", ("n", "self"), "_original_min"), ("call", ("a", ("n", "self"), "get_min_data"), (), ())))
+        nonover = all(not any(k.arg == "override_scaling" and not (isinstance(k.value, ast.Constant) and k.value.value is False) for k in x.keywords) for (x, n) in calls)
+        ok = okf and oksh and nonover
+        why = "revert_scaling: factor undone by 1/_scaling_factor=%s, shift back to _original_min=%s, non-overriding calls=%s" % (okf, oksh, nonover)
+    resets = {s_.attr for s_ in R.self_stores(rv) if s_.kind == "plain" and isinstance(s_.value, ast.Constant) and s_.value.value in (None, False)
+              and all(cr.node_of(s_.stmt).idx in cr.reachable_after(n) for (x, n) in calls)}
+    missing = sattrs - resets
+    ctx.check(ok and not missing, "C18.D5", R.key_of(rv, "revert"), rv.loc(),
+              "revert undoes factor then shift with non-overriding calls and afterwards resets every scaling attribute",
+              why if not ok else "revert_scaling does not reset %s after undoing the scaling" % sorted(missing))
 
 
 def _scaling_attrs(prog, ds):
